@@ -215,8 +215,12 @@ def E1() -> bool:
 
 
 # -- E2: command line loop and eliot.filter on mixed streams ---------------------------------
+# field values an "is there a result?" test is tempted to treat as "nothing to write"
+FALSY_FIELDS = {"nothing": None, "zero": 0, "no": False, "empty": "", "elist": [], "eobj": {}}
+
+
 def _valid_line(n):
-    d = dict(VALID, n=n, text="multi\nline")
+    d = dict(VALID, n=n, text="multi\nline", **FALSY_FIELDS)
     return (json.dumps(d) + "\n").encode("utf-8")
 
 
@@ -269,6 +273,16 @@ def body_E2(ctx):
         o = io.StringIO()
         efilter.EliotFilter("SKIP if J['n'] % 2 else J['n']", valid, o).run()
         ctx.check(o.getvalue() == "".join("%d\n" % json.loads(l)["n"] for l in valid if json.loads(l)["n"] % 2 == 0), "SKIP filter output %r", o.getvalue())
+        # one output line per input line whatever the expression's value is - null, 0, false, "", [], {}
+        plain = [l for l, k in zip(valid, [k for k in kinds if k.startswith("valid")]) if k == "valid"]
+        for key, v in sorted(FALSY_FIELDS.items()):
+            for expr in ("J[%r]" % key, "J.get(%r)" % key):
+                o = io.StringIO()
+                efilter.EliotFilter(expr, plain, o).run()
+                ctx.check(o.getvalue() == (json.dumps(v) + "\n") * len(plain), "filter %s over %d messages wrote %r", expr, len(plain), o.getvalue())
+        o = io.StringIO()
+        efilter.EliotFilter("SKIP if J['n'] % 2 else J.get('absent')", valid, o).run()
+        ctx.check(o.getvalue() == "null\n" * sum(1 for l in valid if json.loads(l)["n"] % 2 == 0), "SKIP-or-null filter output %r", o.getvalue())
         o = io.StringIO()
         efilter.EliotFilter("datetime.utcfromtimestamp(J['timestamp'])", valid, o).run()
         ctx.check(o.getvalue() == "".join(json.dumps(datetime.utcfromtimestamp(json.loads(l)["timestamp"]).isoformat()) + "\n" for l in valid), "datetime filter output %r", o.getvalue())
@@ -280,6 +294,12 @@ def body_E2(ctx):
             stderr = io.StringIO()
 
         ctx.check(efilter.main(FakeSys) == 0 and FakeSys.stdout.getvalue().count("\n") == len(valid), "eliot.filter main() output %r", FakeSys.stdout.getvalue())
+    # identity over every line that is JSON at all (objects or not) reproduces each of them
+    decodable = [ln for name, ln in zip(kinds, lines) if name.startswith("valid") or name.startswith("json-") or name == "incomplete-object"]
+    if decodable:
+        o = io.StringIO()
+        efilter.EliotFilter("J", decodable, o).run()
+        ctx.check(o.getvalue() == "".join(json.dumps(json.loads(l)) + "\n" for l in decodable), "identity filter over JSON lines %r wrote %r", decodable, o.getvalue())
     if any(not k.startswith("valid") for k in kinds):
         ctx.nontrivial(tuple(ctx.trace))
     if len(kinds) == 3 and kinds[0].startswith("json-") and kinds[2].startswith("valid"):
@@ -324,7 +344,7 @@ OBLIGATIONS = [
         E2,
         body_E2,
         "X",
-        desc="eliot-prettyprint on mixed input streams (12 line kinds, 4 option sets) and eliot.filter (identity, SKIP, datetime, main) on their valid lines",
+        desc="eliot-prettyprint on mixed input streams (12 line kinds, 4 option sets) and eliot.filter (identity, SKIP, datetime, field extraction giving null/0/false/empty values, main) on their valid / JSON lines",
         functions=["prettyprint._main", "EliotFilter.run", "EliotFilter._evaluate", "eliot.filter.main", "_DatetimeJSONEncoder"],
         shards=lambda tier: [dict({"max_lines": 2 if tier == "quick" else 3}, prefix=p) for p in enumerate_prefixes(body_E2, "X", {}, {"max_lines": 2 if tier == "quick" else 3}, 2)],
         twin=[{"max_lines": 3, "twin_label": "foreign-then-valid"}],
